@@ -83,11 +83,20 @@ def image(case, probe, A, B):
         return out
     if sym == 'rot':
         s = (1 + case['k'] % (probe.n_x - 1)) * ONE
+        if case['spec']['curve'] == 'Circle' and case['shift_level'] > 0:
+            # any dyadic rotation of the circle: a multiple of the larger box length (boxes stay dyadic because all
+            # roots of the uniform grid are equal)
+            unit = max(A.x1 - A.x0, B.x1 - B.x0, ONE >> case['shift_level'])
+            s = (1 + case['k'] % 11) * unit
 
         def ro(b):
             x0 = (b.x0 + s) % L
             return Box(b.t0, b.t1, x0, x0 + (b.x1 - b.x0), b.lt, b.lx)
-        return (ro(A), ro(B))
+        out = (ro(A), ro(B))
+        for b in out:
+            if (b.x0 >> 60) != ((b.x1 - 1) >> 60) or b.x0 % (b.x1 - b.x0):
+                return None
+        return out
     if sym == 'reflect':
         def rf(b):
             return Box(b.t0, b.t1, L - b.x1, L - b.x0, b.lt, b.lx)
